@@ -1,5 +1,5 @@
 (* Dispatch.v — one entry point for the OCaml driver: property number -> functions. *)
-From Molt Require Import Model.Base Model.Tokenizer Check.C05 Check.C02.
+From Molt Require Import Model.Base Model.Tokenizer Check.C05 Check.C02 Check.C01 Check.C03 Check.C09.
 
 Record prop_fns := {
   pf_model_obs : term -> term;
@@ -13,10 +13,16 @@ Definition no_prop : prop_fns :=
 
 Definition dispatch (p : N) : prop_fns :=
   match p with
+  | 3%N => {| pf_model_obs := c03_model_obs; pf_spec_ok := c03_spec_ok;
+              pf_known := c03_known; pf_nontrivial := c03_nontrivial |}
   | 5%N => {| pf_model_obs := c05_model_obs; pf_spec_ok := c05_spec_ok;
               pf_known := c05_known; pf_nontrivial := c05_nontrivial |}
+  | 1%N => {| pf_model_obs := c01_model_obs; pf_spec_ok := c01_spec_ok;
+              pf_known := c01_known; pf_nontrivial := c01_nontrivial |}
   | 2%N => {| pf_model_obs := c02_model_obs; pf_spec_ok := c02_spec_ok;
               pf_known := c02_known; pf_nontrivial := c02_nontrivial |}
+  | 9%N => {| pf_model_obs := c09_model_obs; pf_spec_ok := c09_spec_ok;
+              pf_known := c09_known; pf_nontrivial := c09_nontrivial |}
   | _ => no_prop
   end.
 
